@@ -1,4 +1,5 @@
 import OPM.Model.Runner
+import OPM.Model.RunnerCalm
 /-!
 Invariants of the runner transition system (M12), each proved for one step (`next s e = some s'`) and lifted
 to traces in `OPM.Properties.C27`.
@@ -569,23 +570,60 @@ theorem before_prefix (d t : Nat) (a r : List Nat) (h : before d t (a ++ r) = tr
         · exact absurd e.symm hyt
         · exact e
 
+theorem before_skip (d t : Nat) (c l : List Nat) (hd : d ∉ c) (ht : t ∉ c) :
+    before d t (c ++ l) = before d t l := by
+  induction c with
+  | nil => rfl
+  | cons y c ih =>
+    simp only [List.mem_cons, not_or] at hd ht
+    have h1 : ¬ y = d := fun e => hd.1 e.symm
+    have h2 : ¬ y = t := fun e => ht.1 e.symm
+    simp only [List.cons_append, before, h1, h2, if_false]
+    exact ih hd.2 ht.2
+
+theorem before_mem_left (d t : Nat) (c l : List Nat) (hd : d ∈ c) (ht : t ∉ c) :
+    before d t (c ++ l) = true := before_of_mem d t c l hd ht
+
+/-- moving a block `b` behind a block `c` that does not contain `t` keeps "d before t" -/
+theorem before_swap (d t : Nat) (x b c : List Nat) (h : before d t (x ++ (b ++ c)) = true) (ht : t ∉ c) :
+    before d t (x ++ (c ++ b)) = true := by
+  induction x with
+  | nil =>
+    simp only [List.nil_append] at h ⊢
+    by_cases hdc : d ∈ c
+    · exact before_mem_left d t c b hdc ht
+    · rw [before_skip d t c b hdc ht]
+      -- d ∉ c: the first d of b ++ c is in b (or nowhere)
+      have hm := before_mem d t _ h
+      have hdb : d ∈ b := by
+        rcases List.mem_append.mp hm with e | e
+        · exact e
+        · exact absurd e hdc
+      clear hm
+      induction b with
+      | nil => cases hdb
+      | cons y b ih =>
+        simp only [List.cons_append, before] at h ⊢
+        split
+        · rfl
+        · rename_i hyd
+          split
+          · rename_i hyt; subst hyt; simp [hyd] at h
+          · rename_i hyt
+            simp only [hyd, hyt, if_false] at h
+            apply ih h
+            rcases List.mem_cons.mp hdb with e | e
+            · exact absurd e.symm hyd
+            · exact e
+  | cons y x ih =>
+    simp only [List.cons_append, before] at h ⊢
+    split
+    · rfl
+    · split
+      · simp_all
+      · simp_all
 /-- What is queued towards the aggregator, in the order it will be sent / answered. -/
 def queue (s : State) : List Nat := s.inflight ++ s.batch ++ s.buffer
-
-/-- Steps excluded by the partial theorem: the state task swallowing its own cancellation, a stop notification
-    sent directly while catching up, a failure hitting a message that had been buffered (a fault during
-    catch-up), a batch that is re-buffered, a failure handler overwriting the reference to a live buffer task. -/
-def calmStep (s : State) : Ev → Bool
-  | .taskClear true => false
-  | .send id _ => !(decide (s.st = .catchingUp) && isStop s id)
-  | .fail id => !s.everBuf.contains id
-  | .postBatch false _ => false
-  | .taskClear false => !(decide (s.stask = some .buffering) && decide (s.st ≠ .reconnected) && decide (s.st ≠ .connected))
-  | _ => true
-
-def calmFrom (s : State) : List Ev → Bool
-  | [] => true
-  | e :: es => calmStep s e && (match next s e with | some s' => calmFrom s' es | none => true)
 
 /-- Everything that was or will be answered, in order: the delivery log followed by the queue. -/
 def line (s : State) : List Nat := s.delivered ++ queue s
@@ -593,8 +631,9 @@ def line (s : State) : List Nat := s.delivered ++ queue s
 def OrdWF (s : State) : Prop :=
   (∀ d ∈ s.everBuf, d ∈ line s) ∧
   (∀ p ∈ s.owed, p.1 ∈ s.everBuf ∧ p.1 ≠ p.2 ∧ p.2 ∉ s.fresh ∧ p.2 ≤ s.kinds.length ∧
-      before p.1 p.2 (line s) = true) ∧
-  s.orderViol = false ∧ s.stuck = []
+      before p.1 p.2 (line s) = true ∧ isStop s p.2 = true) ∧
+  s.orderViol = false ∧
+  (s.batch ≠ [] → ∀ p ∈ s.owed, p.2 ∉ s.buffer)
 
 theorem ordWF_init : OrdWF init := by simp [OrdWF, init]
 
@@ -841,6 +880,238 @@ theorem stuck_elsewhere (s : State) (hc : Conserved s) (m : Nat) (hm : m ∈ s.s
   unfold total at this
   refine ⟨?_, ?_, ?_, ?_⟩ <;> apply count_zero_not_mem <;> omega
 
+/-! ### delivery: a message with evidence of a disconnect is never dropped -/
+
+/-- Evidence that the message was produced while disconnected: it was created while the runner was Failed /
+    Disconnected / Reconnecting, or one of its send attempts failed with the network error, or it was buffered. -/
+def Evidence (s : State) (id : Nat) : Prop := id ∈ s.everBuf ∨ id ∈ s.fails ∨ id ∈ s.discProd
+
+def EvOK (s : State) : Prop :=
+  (∀ id, Evidence s id → id ∉ s.cancelled ∧ id ∉ s.rejected ∧ 1 ≤ id ∧ id ≤ s.kinds.length) ∧
+  (∀ id ∈ s.fails, id ∉ s.fresh) ∧
+  (s.st = .started → s.discProd = [])
+
+theorem evOK_init : EvOK init := by simp [EvOK, Evidence, init]
+
+theorem conserved_at (s : State) (hc : Conserved s) (i : Nat) (l : List Nat) (hl : i ∈ l)
+    (hsub : count i l ≤ count i s.fresh + count i s.inflight + count i s.pending + count i s.waiting +
+      count i s.batch + count i s.buffer) :
+    i ∉ s.cancelled ∧ i ∉ s.rejected ∧ 1 ≤ i ∧ i ≤ s.kinds.length := by
+  have hp := List.count_pos_iff.mpr hl
+  obtain ⟨h1, h2⟩ := conserved_le_one s hc i
+  unfold total at h1 h2
+  have hr := h2 (by omega)
+  refine ⟨?_, ?_, hr.1, hr.2⟩ <;> apply count_zero_not_mem <;> omega
+
+theorem mem_range_of_total (s : State) (hc : Conserved s) (i : Nat) (l : List Nat) (hl : i ∈ l)
+    (hsub : count i l ≤ total s i) : 1 ≤ i ∧ i ≤ s.kinds.length := by
+  have hp := List.count_pos_iff.mpr hl
+  exact (conserved_le_one s hc i).2 (by omega)
+
+theorem evOK_step (s s' : State) (e : Ev) (h : next s e = some s') (hcalm : calmLoss s e = true)
+    (hc : Conserved s) (hev : EverOK s) (ho : EvOK s) : EvOK s' := by
+  obtain ⟨e1, e2, e3⟩ := ho
+  -- a message taken out of a live place and added to the evidence
+  have add : ∀ i, (i ∈ s.fresh ∨ i ∈ s.pending ∨ i ∈ s.waiting ∨ i ∈ s.inflight) →
+      i ∉ s.cancelled ∧ i ∉ s.rejected ∧ 1 ≤ i ∧ i ≤ s.kinds.length := by
+    intro i hi
+    obtain ⟨h1, h2⟩ := conserved_le_one s hc i
+    unfold total at h1 h2
+    have hpos : 0 < count i s.fresh + count i s.pending + count i s.waiting + count i s.inflight := by
+      rcases hi with hi | hi | hi | hi <;> have := List.count_pos_iff.mpr hi <;> omega
+    have hr := h2 (by omega)
+    refine ⟨?_, ?_, hr.1, hr.2⟩ <;> apply count_zero_not_mem <;> omega
+  cases e with
+  | produce i k =>
+    simp only [next] at h; split at h
+    · rename_i hid; subst hid; cases h
+      have hnew : (s.kinds.length + 1) ∉ s.cancelled ∧ (s.kinds.length + 1) ∉ s.rejected := by
+        constructor <;> intro hm
+        · have := mem_range_of_total s hc _ s.cancelled hm (by unfold total; omega); omega
+        · have := mem_range_of_total s hc _ s.rejected hm (by unfold total; omega); omega
+      refine ⟨?_, ?_, ?_⟩
+      · intro id hE
+        simp only [List.length_append, List.length_singleton]
+        rcases hE with hE | hE | hE
+        · obtain ⟨a, b, c, d⟩ := e1 id (Or.inl hE); exact ⟨a, b, c, by omega⟩
+        · obtain ⟨a, b, c, d⟩ := e1 id (Or.inr (Or.inl hE)); exact ⟨a, b, c, by omega⟩
+        · simp only at hE
+          split at hE
+          · rcases List.mem_append.mp hE with hE | hE
+            · obtain ⟨a, b, c, d⟩ := e1 id (Or.inr (Or.inr hE)); exact ⟨a, b, c, by omega⟩
+            · simp only [List.mem_singleton] at hE; subst hE
+              exact ⟨hnew.1, hnew.2, by omega, by omega⟩
+          · obtain ⟨a, b, c, d⟩ := e1 id (Or.inr (Or.inr hE)); exact ⟨a, b, c, by omega⟩
+      · intro id hf
+        simp only [List.mem_append, List.mem_singleton, not_or]
+        refine ⟨e2 id hf, ?_⟩
+        have := (e1 id (Or.inr (Or.inl hf))).2.2.2
+        intro e4; rw [e4] at this; exact Nat.not_succ_le_self _ this
+      · intro hst
+        have hst' : s.st = .started := hst
+        simp only
+        have : mustBuffer s.st = false := by rw [hst']; rfl
+        simp only [this]
+        exact e3 hst'
+    · cases h
+  | send i q =>
+    simp only [next] at h; split at h <;> cases h
+    exact ⟨e1, fun id hf hm => e2 id hf (List.mem_of_mem_erase hm), e3⟩
+  | buf i q =>
+    simp only [next] at h
+    split at h
+    · rename_i hg; cases h
+      refine ⟨?_, fun id hf hm => e2 id hf (List.mem_of_mem_erase hm), e3⟩
+      intro id hE
+      rcases hE with hE | hE | hE
+      · rcases List.mem_append.mp hE with hE | hE
+        · exact e1 id (Or.inl hE)
+        · simp only [List.mem_singleton] at hE; subst hE; exact add id (Or.inl hg.1)
+      · exact e1 id (Or.inr (Or.inl hE))
+      · exact e1 id (Or.inr (Or.inr hE))
+    · split at h
+      · rename_i hg; cases h
+        refine ⟨?_, e2, e3⟩
+        intro id hE
+        rcases hE with hE | hE | hE
+        · rcases List.mem_append.mp hE with hE | hE
+          · exact e1 id (Or.inl hE)
+          · simp only [List.mem_singleton] at hE; subst hE; exact add id (Or.inr (Or.inl hg.1))
+        · exact e1 id (Or.inr (Or.inl hE))
+        · exact e1 id (Or.inr (Or.inr hE))
+      · split at h
+        · rename_i hg; cases h
+          refine ⟨?_, e2, e3⟩
+          intro id hE
+          rcases hE with hE | hE | hE
+          · rcases List.mem_append.mp hE with hE | hE
+            · exact e1 id (Or.inl hE)
+            · simp only [List.mem_singleton] at hE; subst hE; exact add id (Or.inr (Or.inr (Or.inl hg.1)))
+          · exact e1 id (Or.inr (Or.inl hE))
+          · exact e1 id (Or.inr (Or.inr hE))
+        · cases h
+  | bufTask i q =>
+    simp only [next] at h
+    split at h <;> cases h
+    rename_i hg
+    refine ⟨?_, fun id hf hm => e2 id hf (List.mem_of_mem_erase hm), e3⟩
+    intro id hE
+    rcases hE with hE | hE | hE
+    · rcases List.mem_append.mp hE with hE | hE
+      · exact e1 id (Or.inl hE)
+      · simp only [List.mem_singleton] at hE; subst hE; exact add id (Or.inl hg.1)
+    · exact e1 id (Or.inr (Or.inl hE))
+    · exact e1 id (Or.inr (Or.inr hE))
+  | reject i =>
+    simp only [next] at h; split at h <;> cases h
+    rename_i hg
+    refine ⟨?_, fun id hf hm => e2 id hf (List.mem_of_mem_erase hm), e3⟩
+    intro id hE
+    obtain ⟨a, b, c, d⟩ := e1 id hE
+    refine ⟨a, ?_, c, d⟩
+    simp only [List.mem_append, List.mem_singleton, not_or]
+    refine ⟨b, ?_⟩
+    intro e4; subst e4
+    rcases hE with hE | hE | hE
+    · exact (hev id hE).1 hg.1
+    · exact e2 id hE hg.1
+    · rw [e3 hg.2] at hE; cases hE
+  | ok i =>
+    simp only [next] at h
+    split at h
+    · split at h <;> cases h; exact ⟨e1, e2, e3⟩
+    · cases h
+  | fail i =>
+    simp only [next] at h
+    split at h
+    · rename_i hd rest heq
+      split at h <;> cases h
+      rename_i hh; subst hh
+      have hin : hd ∈ s.inflight := by rw [heq]; simp
+      refine ⟨?_, ?_, e3⟩
+      · intro id hE
+        rcases hE with hE | hE | hE
+        · exact e1 id (Or.inl hE)
+        · rcases List.mem_append.mp hE with hE | hE
+          · exact e1 id (Or.inr (Or.inl hE))
+          · simp only [List.mem_singleton] at hE; subst hE
+            exact add id (Or.inr (Or.inr (Or.inr hin)))
+        · exact e1 id (Or.inr (Or.inr hE))
+      · intro id hf
+        rcases List.mem_append.mp hf with hf | hf
+        · exact e2 id hf
+        · simp only [List.mem_singleton] at hf; subst hf
+          have hp := List.count_pos_iff.mpr hin
+          have := (conserved_le_one s hc id).1
+          unfold total at this
+          show id ∉ s.fresh
+          apply count_zero_not_mem; omega
+    · cases h
+  | cancel i =>
+    simp only [next] at h
+    split at h
+    · cases h
+    · rename_i hg
+      have hne : i ∉ s.everBuf := fun hm => hg (Or.inl hm)
+      simp only [calmLoss, Bool.not_eq_true', Bool.or_eq_false_iff] at hcalm
+      have hnf : i ∉ s.fails := by
+        intro hm; have : s.fails.contains i = true := by simpa using hm
+        rw [this] at hcalm; exact absurd hcalm.1 (by simp)
+      have hnd : i ∉ s.discProd := by
+        intro hm; have : s.discProd.contains i = true := by simpa using hm
+        rw [this] at hcalm; exact absurd hcalm.2 (by simp)
+      have key : ∀ id, Evidence s id → id ∉ s.cancelled ++ [i] ∧ id ∉ s.rejected ∧ 1 ≤ id ∧ id ≤ s.kinds.length := by
+        intro id hE
+        obtain ⟨a, b, c, d⟩ := e1 id hE
+        refine ⟨?_, b, c, d⟩
+        simp only [List.mem_append, List.mem_singleton, not_or]
+        refine ⟨a, ?_⟩
+        intro e4; subst e4
+        rcases hE with hE | hE | hE
+        · exact hne hE
+        · exact hnf hE
+        · exact hnd hE
+      split at h
+      · cases h; exact ⟨key, e2, e3⟩
+      · split at h
+        · cases h; exact ⟨key, e2, e3⟩
+        · cases h
+  | setState t =>
+    cases t <;> simp only [next] at h <;> (try (cases h)) <;>
+      (repeat' split at h) <;> (try (cases h)) <;>
+      exact ⟨e1, e2, fun hst => by cases hst⟩
+  | take n => simp only [next] at h; split at h <;> cases h; exact ⟨e1, e2, e3⟩
+  | postBatch sent qs =>
+    cases sent <;> simp only [next] at h <;> split at h <;> (try (cases h)) <;> exact ⟨e1, e2, e3⟩
+  | connect b => simp only [next] at h; split at h <;> cases h; exact ⟨e1, e2, e3⟩
+  | disconnect => simp only [next] at h; cases h; exact ⟨e1, e2, e3⟩
+  | wait i self =>
+    cases self <;> simp only [next] at h <;> split at h <;> (try (cases h)) <;> exact ⟨e1, e2, e3⟩
+  | waitOther => simp only [next] at h; split at h <;> cases h; exact ⟨e1, e2, e3⟩
+  | taskSet k => simp only [next] at h; cases h; exact ⟨e1, e2, e3⟩
+  | taskClear self =>
+    cases self <;> simp only [next] at h
+    · split at h <;> cases h <;> exact ⟨e1, e2, e3⟩
+    · split at h <;> cases h; exact ⟨e1, e2, e3⟩
+
+/-- "The runner reports it has caught up": steady state, nothing queued, in flight or being handled. -/
+def CaughtUp (s : State) : Prop :=
+  (s.st = .reconnected ∨ s.st = .connected) ∧ s.fresh = [] ∧ s.inflight = [] ∧ s.pending = [] ∧ s.waiting = [] ∧
+  s.batch = [] ∧ s.buffer = []
+
+/-- … then every message that is not cancelled, rejected or stuck has been delivered. -/
+theorem delivered_of_caughtUp (s : State) (hc : Conserved s) (hq : CaughtUp s) (id : Nat)
+    (hr : 1 ≤ id ∧ id ≤ s.kinds.length) (h1 : id ∉ s.cancelled) (h2 : id ∉ s.rejected) (h3 : id ∉ s.stuck) :
+    id ∈ s.delivered := by
+  have ht := hc id
+  obtain ⟨_, q1, q2, q3, q4, q5, q6⟩ := hq
+  unfold total at ht
+  simp only [hr, and_self, if_true, q1, q2, q3, q4, q5, q6, List.count_nil] at ht
+  have z1 : count id s.cancelled = 0 := List.count_eq_zero.mpr h1
+  have z2 : count id s.rejected = 0 := List.count_eq_zero.mpr h2
+  have z3 : count id s.stuck = 0 := List.count_eq_zero.mpr h3
+  apply List.count_pos_iff.mp; omega
+
 /-! ### attempts on the wire -/
 
 /-- Every attempt went over the wire with the number the message carries (now and ever since). -/
@@ -958,16 +1229,16 @@ theorem orphans_mono (s s' : State) (e : Ev) (h : next s e = some s') : s.orphan
     · split at h <;> cases h <;> simp
     · split at h <;> cases h; simp
 
-theorem orphans_calm (s s' : State) (e : Ev) (h : next s e = some s') (hc : calmStep s e = true)
+theorem orphans_calm (s s' : State) (e : Ev) (h : next s e = some s') (hc : calmOrder s e = true)
     (hz : s.orphans = 0) : s'.orphans = 0 := by
   cases e with
   | taskClear self =>
     cases self <;> simp only [next] at h
     · split at h
       · rename_i hg
-        simp [calmStep, hg.1, hg.2.1, hg.2.2] at hc
+        simp [calmOrder, hg.1, hg.2.1, hg.2.2] at hc
       · cases h; exact hz
-    · simp [calmStep] at hc
+    · split at h <;> cases h; exact hz
   | produce i k => simp only [next] at h; split at h <;> cases h; exact hz
   | send i q => simp only [next] at h; split at h <;> cases h; exact hz
   | buf i q => simp only [next] at h; (repeat' split at h) <;> (try (cases h)) <;> exact hz
